@@ -387,7 +387,10 @@ class C28(Property):
             "random quadratic, a linear function or random dyadic values; surrogate in {ResponseSurface, "
             "Kriging(nugget 0|default|1e-10, eval_rmse, lapack_driver), NearestNeighbor linear | "
             "weighted(num_neighbors, dist_eff) | rbf(num_neighbors, rbf_family -3..4)}; queries at "
-            "training points, near training points, random points, plus cache-order scenarios; first in the "
+            "training points, near training points, random points, plus cache-order scenarios (predict at a "
+            "training point then linearize next to it; predict(x, num_neighbors=m) then "
+            "linearize(x, num_neighbors=k) with m >, <, == k, a dedicated family of weighted cases at the "
+            "head of the stream); first in the "
             "stream a family of badly scaled full-rank ResponseSurface designs (calendar year, Pa, Kelvin, "
             "Mach, 1e-5-sized inputs; cond 1e9..3e12; exactly representable data and quadratic). comp "
             "cases: MetaModelUnStructuredComp with 1-3 input variables, 1-2 outputs (sizes 1-2), "
@@ -641,16 +644,60 @@ class C28(Property):
             off = [r * F(rng.choice([-1, 1]), 2 ** 20) for r in nb.tpr]
             qs.append({'kind': 'stale', 'i': i, 'a': rats(X[i]),
                        'x': rats([a + b for a, b in zip(X[i], off)])})
-        if spec['type'] == 'nn_weighted' and rng.random() < 0.15 and len(X) >= 3:
+        if spec['type'] == 'nn_weighted' and rng.random() < 0.3 and len(X) >= 3:
             q = dict(qs[-1] if qs[-1]['kind'] == 'rand' else {'kind': 'rand', 'x': qs[0]['x']})
             q['kind'] = 'kwswitch'
-            q['first_nn'] = rng.choice([2, 3])
+            k = spec['call'].get('num_neighbors', 5)
+            q['first_nn'] = rng.choice([c for c in (2, 3, k - 1, k + 1, k + 2) if 2 <= c <= len(X)])
             qs.append(q)
         case = {'kind': 'direct', 'spec': spec, 'style': style, 'ykind': ykind,
                 'X': mat_rats(X), 'Y': mat_rats(Y), 'queries': qs}
         if betas is not None:
             case['beta'] = mat_rats(betas)
         return case
+
+    def _weighted_switch_case(self, rng):
+        """Weighted interpolator, neighbour cache across different num_neighbors at one point:
+        predict(x, num_neighbors=m) then linearize(x, num_neighbors=k) with m > k, m < k and m == k,
+        checked against the derivative of predict(., num_neighbors=k).  Query points are kept only
+        where the k-neighbour set is provably constant on the finite-difference stencil."""
+        for _attempt in range(30):
+            nin = rng.choice([1, 2, 2, 3])
+            nout = rng.choice([1, 1, 2])
+            k = rng.choice([2, 3, 3, 4, 5])
+            m = k + rng.randint(3, 10)
+            spec = {'type': 'nn_weighted', 'init': {}, 'call': {}}
+            if k != 5 or rng.random() < 0.5:
+                spec['call']['num_neighbors'] = k
+            if rng.random() < 0.5:
+                spec['call']['dist_eff'] = rng.choice([2, 3, 4])
+            X = self._points(rng, nin, m, 'dyadic')
+            if len(X) < k + 3:
+                continue
+            Y, betas = self._outputs(rng, X, nout, rng.choice(['rand', 'rand', 'quad']))
+            firsts = [k + 1, k + 2, k, max(2, k - 1), min(len(X), k + 3)]
+            if k == 2:
+                firsts[3] = k + 1          # nothing smaller than two neighbours
+            qs = [{'kind': 'train', 'i': 0, 'x': rats(X[0])}]
+            hn = 2.0 ** -14
+            for q in self._queries(rng, X, spec, 0, 0, 40):
+                nb = Neigh(X, [unrat(v) for v in q['x']])
+                if nb.tie(k) or nb.gap(k) <= 64 * hn or math.sqrt(float(nb.d2[nb.order[0]])) <= 200 * hn:
+                    continue
+                q = dict(q)
+                q['kind'] = 'kwswitch'
+                q['first_nn'] = firsts[len(qs) - 1]
+                qs.append(q)
+                if len(qs) == len(firsts) + 1:
+                    break
+            if len(qs) < 4:
+                continue
+            case = {'kind': 'direct', 'spec': spec, 'style': 'dyadic', 'ykind': 'rand' if betas is None else 'quad',
+                    'X': mat_rats(X), 'Y': mat_rats(Y), 'queries': qs}
+            if betas is not None:
+                case['beta'] = mat_rats(betas)
+            return case
+        return self._direct_case(rng, 'nn')
 
     def _scaled_rs_case(self, rng):
         """ResponseSurface on a full-rank but badly scaled design: inputs with a large offset
@@ -771,6 +818,9 @@ class C28(Property):
         # badly scaled, full-rank ResponseSurface designs first
         for _ in range(16 if tier == 'quick' else 300):
             yield self._scaled_rs_case(rng)
+        # neighbour cache of the weighted interpolator across different num_neighbors
+        for _ in range(12 if tier == 'quick' else 150):
+            yield self._weighted_switch_case(rng)
         for k in range(n_direct + n_comp):
             if k % 6 == 5 and n_comp > 0:
                 n_comp -= 1
@@ -1465,6 +1515,9 @@ class C28(Property):
                 b.append('krig_cond=' + info['krig_cond_bucket'])
             for q, o, qa in zip(case['queries'], impl['queries'], info['q']):
                 b.append('query=' + q['kind'])
+                if q['kind'] == 'kwswitch' and 'k' in qa:
+                    b.append('kwswitch:first%sk' % ('>' if q['first_nn'] > qa['k'] else
+                                                    '<' if q['first_nn'] < qa['k'] else '=='))
                 if 'error' in o:
                     b.append('query_error=' + o['error'])
                 if qa.get('fd_ok') and o.get('fd') and 'jac' in o:
